@@ -286,6 +286,16 @@ func intOfParam(P *Prog, t *Term, p *Path, depth int) string {
 
 func runC13(r *Report, tier string) {
 	P := r.P
+	// round 6: the verdict on a decoded header set is about the decoded set
+	r.rule("R19.2", "(shared with C19) the bucket decoders replace their destination: what they validated is what the destination holds afterwards - a decoder that fills a map the destination already held merges two individually valid sets into one that was never validated (IV next to Partial IV, crit without its label).")
+	for _, tn := range []string{"ProtectedHeader", "UnprotectedHeader"} {
+		if D := P.methodOf(P.mustNamed(tn), "UnmarshalCBOR"); D != nil {
+			checkReceiverAssigned(r, "R19.2", D)
+			checkNoWriteBelowOldReceiver(r, "R19.2", D)
+		} else {
+			undecidedf("anchor not found: %s.UnmarshalCBOR", tn)
+		}
+	}
 	r.rule("R13.1", "the validator's per-entry paths, lowered to a table label -> conditions on the way to acceptance, satisfy RFC 9052 3.1 / RFC 9338: alg: Algorithm|int|tstr; crit: protected only, crit helper succeeded; content type / typ: uint, or tstr non-empty without leading/trailing space and with exactly one '/'; kid, IV, Partial IV: bstr; IV and Partial IV exclude each other; 7/11: unprotected only, countersignature value predicate; 9/12: unprotected only, bstr; every label normalises and is not a duplicate. The value predicates are identified and checked by their kind tables (int: ten integer kinds; uint: unsigned kinds, signed with >= 0; tstr: string; bstr: non-nil []byte - a nil slice would be emitted as CBOR null); label constants equal their IANA values.")
 	r.rule("R13.2", "the four bucket (un)marshalers reach the same validator, protected ones with the constant true, unprotected ones with false, on every non-empty success path; every structure encoder carries ok(cross-bucket IV check) on its own Headers, the function the decoders use (R05.5).")
 	r.rule("R13.3", "uniqueness: every accepted entry has passed the duplicate test on the normalised label; decode side: DupMapKeyEnforcedAPF and IntDecConvertSigned (R05.1).")
